@@ -19,7 +19,7 @@ def sh(cmd, **kw):
 
 def main():
     names = sys.argv[1:] or sorted(os.listdir(os.path.join(ROOT, 'seeded')))
-    path = os.path.join(ROOT, 'seeded', 'MATRIX.json')
+    path = os.environ.get('VERIF_MATRIX_OUT') or os.path.join(ROOT, 'seeded', 'MATRIX.json')
     matrix = json.load(open(path)) if os.path.exists(path) else {}
     head = sh(['git', '-C', '/repo', 'log', '--format=%h', '-1']).stdout.strip()
     for name in names:
